@@ -5,6 +5,7 @@ import (
 	"fmt"
 	"io"
 
+	"github.com/celestiaorg/celestia-node/libs/verifhook"
 	"github.com/celestiaorg/celestia-node/share"
 )
 
@@ -55,6 +56,7 @@ func writeHeader(w io.Writer, h *headerV0) error {
 	if err != nil {
 		return fmt.Errorf("writeHeader: %w", err)
 	}
+	verifhook.Point("header.version-written")
 	_, err = h.WriteTo(w)
 	return err
 }
